@@ -555,10 +555,6 @@ class MBXML:
         ), f"write_uintvar cannot write integers bigger than {cls.UINTVAR_MAX}"
         bin_val: str = bin(value)[2:][::-1]
 
-        if bin_val[0:7] == "0000000" and (len(bin_val) / 7) > 1:
-            # remove appended zeroes
-            bin_val = bin_val[7:]
-
         bin_len: int = len(bin_val)
         byte_len: int = math.ceil(bin_len / 7)
 
@@ -622,6 +618,18 @@ class MBXML:
         return (integer + (decimal / 128 ** (idx_2 - idx))), idx_2
 
     @classmethod
+    def write_fraction(cls, numerator: int, precision: int) -> bytes:
+        """
+        write numerator / 128**precision as (precision) 7-bit groups, number of groups is what tells
+        the reader the denominator, only trailing zero groups can be left out
+        """
+        while precision > 1 and numerator % 128 == 0:
+            numerator //= 128
+            precision -= 1
+        groups = [(numerator >> (7 * i)) & 0x7F for i in reversed(range(precision))]
+        return bytes([group | 0x80 for group in groups[:-1]] + groups[-1:])
+
+    @classmethod
     def read_uint8(cls, data: bytes, idx: int) -> Tuple[int, int]:
         """
         Read single byte and return as unsigned value
@@ -638,7 +646,7 @@ class MBXML:
         int_part = int(value)
         dec_part = int(value % 1 * 128**precision)
         integer = cls.write_uintvar(int_part)
-        decimal = cls.write_uintvar(dec_part)
+        decimal = cls.write_fraction(dec_part, precision)
         return integer + decimal
 
     @classmethod
@@ -659,7 +667,7 @@ class MBXML:
         int_part = int(value)
         dec_part = int(abs(value % (1 if value >= 0 else -1)) * 128**precision)
         integer = cls.write_sintvar(int_part, negative_zero=value < 0)
-        decimal = cls.write_uintvar(dec_part)
+        decimal = cls.write_fraction(dec_part, precision)
         return integer + decimal
 
     @classmethod
